@@ -428,5 +428,126 @@ pub fn units() -> Vec<Unit> {
             Fn("VerifMac::set_datarate"),
         ],
     },
+    // ---- builder N (tie A for more stateful methods)
+    // C11: `Otaa::handle_rx` — the join step.  The crypto stays abstract: the radio buffer is what
+    // `check_mic_and_decrypt_in_place` yields on it under a key (`none` = `Err`), the decrypted view exposes
+    // its fields and the two key derivations as functions; the region is an abstract carrier with the
+    // three methods the join step calls (`RegionOps`).  Translated for real: `Otaa::handle_rx`,
+    // `Session::derive_new`, `Session::new`, `DLSettings::{rx1_dr_offset, rx2_data_rate}`,
+    // `del_to_delay_ms`, `NetworkCredentials::appkey`, `Uplink::default()`.
+    Unit {
+        module: "Gen.OtaaFn",
+        file: "lorawan-device/src/mac/otaa.rs",
+        more_files: vec![
+            "lorawan-device/src/mac/mod.rs",
+            "lorawan-device/src/mac/session.rs",
+            "lorawan-device/src/mac/uplink/mod.rs",
+            "lorawan-device/src/region/constants.rs",
+            "lorawan-encoding/src/types.rs",
+            "lorawan-encoding/src/packet_length.rs",
+        ],
+        imports: vec!["LoraVerif.Gen.Region"],
+        items: vec![
+            ExternEnum("DR"),
+            ExternFnX("u8::into_DR", "u8.into_DR", &[("v", "u8")], "DR", &[], true),
+            Const("RECEIVE_DELAY1"),
+            Const("FOPTS_MAX_LEN"),
+            Struct("Configuration"),
+            Newtype("DLSettings"),
+            Fn("DLSettings::rx1_dr_offset"),
+            Fn("DLSettings::rx2_data_rate"),
+            Raw(OTAA_RAW),
+            ExternStructRaw("AES128", &[]),
+            ExternStructRaw("AppKey", &[]),
+            ExternStructRaw("NwkSKey", &[]),
+            ExternStructRaw("AppSKey", &[]),
+            ExternStructRaw("DevAddr", &[]),
+            ExternStructRaw("DevNonce", &[]),
+            ExternStructRaw("DefaultCrypto", &[]),
+            ExternStructRaw("CfList", &[]),
+            ExternStructRaw("Datarate", &[]),
+            ExternStructRaw("DecryptedJoinAcceptPayload", &[]),
+            ExternStructRaw("RxBytes", &[]),
+            ExternStructRaw("RadioBuffer", &[]),
+            ExternStructRaw("RegionCfg", &[]),
+            ExternFn("AppKey::inner", "AppKey.inner", &[("self", "AppKey")], "AES128"),
+            ExternFn("DefaultCrypto::new", "DefaultCrypto.new", &[("key", "AES128")], "DefaultCrypto"),
+            ExternFn("RadioBuffer::as_mut_for_read", "RadioBuffer.as_mut_for_read", &[("self", "RadioBuffer")], "RxBytes"),
+            ExternFn("DecryptedJoinAcceptPayload::check_mic_and_decrypt_in_place", "RxBytes.check_mic_and_decrypt_in_place", &[("buf", "RxBytes"), ("crypto", "DefaultCrypto")], "Result<DecryptedJoinAcceptPayload, Error>"),
+            ExternFn("DecryptedJoinAcceptPayload::c_f_list", "DecryptedJoinAcceptPayload.c_f_list", &[("self", "DecryptedJoinAcceptPayload")], "Option<CfList>"),
+            ExternFn("DecryptedJoinAcceptPayload::rx_delay", "DecryptedJoinAcceptPayload.rx_delay", &[("self", "DecryptedJoinAcceptPayload")], "u8"),
+            ExternFn("DecryptedJoinAcceptPayload::dl_settings", "DecryptedJoinAcceptPayload.dl_settings", &[("self", "DecryptedJoinAcceptPayload")], "DLSettings"),
+            ExternFn("DecryptedJoinAcceptPayload::dev_addr", "DecryptedJoinAcceptPayload.dev_addr", &[("self", "DecryptedJoinAcceptPayload")], "DevAddr"),
+            ExternFn("DecryptedJoinAcceptPayload::derive_nwkskey", "DecryptedJoinAcceptPayload.derive_nwkskey", &[("self", "DecryptedJoinAcceptPayload"), ("dev_nonce", "DevNonce"), ("crypto", "DefaultCrypto")], "NwkSKey"),
+            ExternFn("DecryptedJoinAcceptPayload::derive_appskey", "DecryptedJoinAcceptPayload.derive_appskey", &[("self", "DecryptedJoinAcceptPayload"), ("dev_nonce", "DevNonce"), ("crypto", "DefaultCrypto")], "AppSKey"),
+            ExternFnX("RegionCfg::process_join_accept", "RegionOps.process_join_accept", &[("self", "RegionCfg"), ("c_f_list", "Option<CfList>")], "", &["self"], true),
+            ExternFn("RegionCfg::rx1_dr_offset_validate", "RegionOps.rx1_dr_offset_validate", &[("self", "RegionCfg"), ("value", "u8")], "Option<u8>"),
+            ExternFn("RegionCfg::get_datarate", "RegionOps.get_datarate", &[("self", "RegionCfg"), ("dr", "u8")], "Option<Datarate>"),
+            Struct("Uplink"),
+            Struct("Session"),
+            StructPartial("NetworkCredentials", &["appkey"]),
+            Fn("Session::new"),
+            Fn("Session::derive_new"),
+            Struct("Otaa"),
+            // in otaa.rs `Configuration` is the region's and `super::Configuration` the MAC's
+            Alias("super::Configuration", "Configuration"),
+            Alias("Configuration", "RegionCfg"),
+            Fn("Otaa::handle_rx"),
+        ],
+    },
     ]
 }
+
+/// Lean text of the abstract part of `Gen.OtaaFn`
+const OTAA_RAW: &str = r#"/-! The crypto and the region stay abstract.  Keys, addresses and nonces are opaque identities. -/
+structure AES128 where
+  id : Int
+  deriving DecidableEq, Repr
+structure AppKey where
+  inner : AES128
+  deriving DecidableEq, Repr
+structure NwkSKey where
+  id : Int
+  deriving DecidableEq, Repr
+structure AppSKey where
+  id : Int
+  deriving DecidableEq, Repr
+structure DevAddr where
+  id : Int
+  deriving DecidableEq, Repr
+structure DevNonce where
+  value : Int
+  deriving DecidableEq, Repr
+/-- `DefaultCrypto::new(key)`: a crypto context is the key it is bound to -/
+structure DefaultCrypto where
+  new ::
+  key : AES128
+  deriving DecidableEq, Repr
+/-- the CFList of a JoinAccept as the parser exposes it (`lorawan::parser::CfList`) -/
+inductive CfList where
+  | DynamicChannel (freqs : List Int)
+  | FixedChannel (mask : List Int)
+  deriving DecidableEq, Repr
+/-- the decrypted view of a JoinAccept: the fields `Otaa::handle_rx` reads and the two key derivations
+(functions of the DevNonce and the crypto context; AES itself is not modelled) -/
+structure DecryptedJoinAcceptPayload where
+  c_f_list : Option CfList
+  rx_delay : Int
+  dl_settings : DLSettings
+  dev_addr : DevAddr
+  derive_nwkskey : DevNonce → DefaultCrypto → NwkSKey
+  derive_appskey : DevNonce → DefaultCrypto → AppSKey
+/-- the received bytes: what `check_mic_and_decrypt_in_place` yields on them under a crypto context
+(`none` = `Err`: not a JoinAccept, or the MIC does not verify) -/
+structure RxBytes where
+  check_mic_and_decrypt_in_place : DefaultCrypto → Option DecryptedJoinAcceptPayload
+structure RadioBuffer where
+  as_mut_for_read : RxBytes
+/-- what the join step calls on `region::Configuration` (macro-dispatched to the plan in the source;
+abstract here): `process_join_accept` (`&mut self`; `none` = panic), `rx1_dr_offset_validate`, `get_datarate` -/
+class RegionOps (ρ : Type) where
+  process_join_accept : ρ → Option CfList → Option ρ
+  rx1_dr_offset_validate : ρ → Int → Option Int
+  get_datarate : ρ → Int → Option Datarate
+variable {RegionCfg : Type} [RegionOps RegionCfg]
+"#;
